@@ -31,10 +31,32 @@ fn setup(ctl: &mut Ctl, label: &str) {
         ctl.run(0, Op::Give { kind: 'w', slot: 3, to: 1, to_slot });
     }
     ctl.run(1, Op::Recv);
+    // pointers to X that carry three different internal timestamps: none (fresh Rc / its Weak), the one of
+    // the link they were swapped out of at epoch e+1 (stored back into the cells), and another one at e+2
+    ctl.run(0, Op::Unpin);
+    ctl.advance();
+    ctl.run(0, Op::Pin);
+    ctl.run(0, Op::Clone { src: 0, dst: 4 });
+    ctl.run(0, Op::Swap { loc: Loc::Cell(0), val: RcArg::Slot(4), dst: 4 }); // Rc(X) with timestamp e
+    ctl.run(0, Op::Downgrade { src: 4, dst: 3 });
+    ctl.run(0, Op::WStore { loc: WLoc::Cell(0), val: RcArg::Slot(3) }); // the weak cell now holds a stamped word
+    ctl.run(0, Op::Drop { slot: 4 });
+    ctl.run(0, Op::Unpin);
+    ctl.advance();
+    ctl.run(0, Op::Pin);
+    ctl.run(0, Op::Clone { src: 0, dst: 4 });
+    ctl.run(0, Op::Swap { loc: Loc::Cell(0), val: RcArg::Slot(4), dst: 4 });
+    ctl.run(0, Op::Downgrade { src: 4, dst: 3 }); // Weak(X) with a third timestamp
+    ctl.run(0, Op::Give { kind: 'r', slot: 4, to: 1, to_slot: 3 }); // thread 1: Rc(X) stamped, slot 3
+    ctl.run(0, Op::Give { kind: 'w', slot: 3, to: 1, to_slot: 3 }); // thread 1: Weak(X) stamped, slot 3
+    ctl.run(1, Op::Recv);
     ctl.run(1, Op::Pin);
     for t in 0..2 {
         ctl.run(t, Op::Load { loc: Loc::Cell(0), dst: 0 });
         ctl.run(t, Op::WLoad { loc: WLoc::Cell(0), dst: 0 });
+        // expected values that are ptr_eq to the cell content but differ in the timestamp
+        ctl.run(t, Op::Snap { src: 0, dst: 1 });
+        ctl.run(t, Op::WSnap { src: 0, dst: 1 });
     }
     ctl.log_enabled = true;
     ctl.record("setup", usize::MAX, label, None);
@@ -63,6 +85,14 @@ pub fn vocabulary() -> Vec<(&'static str, Op)> {
         ("wswap_null", Op::WSwap { loc: WLoc::Cell(0), val: RcArg::Null(0), dst: 4 }),
         ("wcas_y", Op::WCas { loc: WLoc::Cell(0), exp: SnArg::Slot(0), val: RcArg::Slot(1), weak: false, dst_wk: 4, dst_ws: 2 }),
         ("wcas_tag", Op::WCasTag { loc: WLoc::Cell(0), exp: SnArg::Slot(0), tag: 1, dst_ws: 2 }),
+        // expected differs from the stored word only in the internal timestamp
+        ("cas_x0", Op::Cas { loc: Loc::Cell(0), exp: SnArg::Slot(1), val: RcArg::Slot(1), weak: false, dst_rc: 5, dst_sn: 2 }),
+        ("cas_tag_x0", Op::CasTag { loc: Loc::Cell(0), exp: SnArg::Slot(1), tag: 2, dst_sn: 2 }),
+        ("wcas_x0", Op::WCas { loc: WLoc::Cell(0), exp: SnArg::Slot(1), val: RcArg::Slot(1), weak: false, dst_wk: 4, dst_ws: 2 }),
+        ("wcas_tag_x0", Op::WCasTag { loc: WLoc::Cell(0), exp: SnArg::Slot(1), tag: 2, dst_ws: 2 }),
+        // the same pointer written back with another timestamp (thread 1 only holds these)
+        ("store_xts", Op::Store { loc: Loc::Cell(0), val: RcArg::Slot(3) }),
+        ("wstore_xts", Op::WStore { loc: WLoc::Cell(0), val: RcArg::Slot(3) }),
         ("unpin", Op::Unpin),
         ("reactivate", Op::Reactivate),
     ]
@@ -85,7 +115,7 @@ pub fn run_pairs(ctl: &mut Ctl, filter_a: &dyn Fn(&str) -> bool, filter_b: &dyn 
     let voc = vocabulary();
     let mut count = 0;
     for (an, a) in voc.iter() {
-        if !filter_a(an) {
+        if !filter_a(an) || an.ends_with("_xts") {
             continue;
         }
         let first = ctl.out.len();
